@@ -9,7 +9,7 @@ PROP = {
     "harness": "c24",
     "modelrun": {"name": "c24", "extracted": ["c24_model"], "driver": "ocaml/c24/c24_run.ml"},
     "tiers": {"quick": {"cases": 3500}, "thorough": {"cases": 40000}},
-    "search_cases": 20000,
+    "search_cases": 6000,
     "search_rounds": 1,
     "rule": "schedules of the steps U(p) A(ccept) O(pen received) P(ublish) K(eepalive received) T(ake Cease) H(andle Cease) of "
             "two FSMs of one peer: ALL sequences of enabled steps with at most 1 (quick) / 2 (thorough) KEEPALIVEs per "
